@@ -65,13 +65,19 @@ func checkScale(cs scalekit.Case) scalekit.Verdict {
 			late = len(files) - 1
 		}
 	}
-	batch := dump.Run(files, dump.Options{Positions: true}).Summary()
-	ms := yang.NewModules()
+	// (the batch run under the same crossing: respelt prefixes, options)
+	bms := scalekit.NewModules()
+	var bfiles []dump.File
+	for _, f := range files {
+		bfiles = append(bfiles, dump.File{Name: f.Name, Text: scalekit.Text(f.Text)})
+	}
+	batch := dump.Run(bfiles, dump.Options{Positions: true}, func(ms *yang.Modules) { ms.ParseOptions = bms.ParseOptions }).Summary()
+	ms := scalekit.NewModules()
 	for i, f := range files {
 		if i == late {
 			continue
 		}
-		if err := ms.Parse(f.Text, f.Name); err != nil {
+		if err := ms.Parse(scalekit.Text(f.Text), f.Name); err != nil {
 			return scalekit.Bad("load-error", "loads", err.Error())
 		}
 	}
@@ -91,7 +97,7 @@ func checkScale(cs scalekit.Case) scalekit.Verdict {
 		}
 		_ = dump.Modules(ms, dump.Options{Positions: true}) // every read accessor, incl. namespace and module lookups
 	}
-	if err := ms.Parse(files[late].Text, files[late].Name); err != nil {
+	if err := ms.Parse(scalekit.Text(files[late].Text), files[late].Name); err != nil {
 		return scalekit.Bad("load-error", "loads", err.Error())
 	}
 	errs := ms.Process()
